@@ -3,6 +3,7 @@ Concretize / abstract functions for the reference-test modules (Argv, RefTest).
 Imports tdda from the working tree (sys.path is prepared by bin/check).
 """
 import contextlib
+import os
 import io
 import sys
 import types
@@ -169,3 +170,54 @@ def run_stock_unittest(structure, argv_strs):
     finally:
         sys.modules.pop('verifmod', None)
     return {'executed': log, 'error': err}
+
+
+def write_tdda_script(path, structure, hook=False):
+    """The module as a real script that ends in ReferenceTestCase.main() (the entry point people use: __main__, no module=).
+    hook: the module also has a load_tests() hook that adds ONE instance of a class-tagged class whose method does not carry
+    the test prefix (a parametrised scenario test); that class is appended to the structure the caller judges by."""
+    lines = ['import os', 'import sys', 'import unittest', 'from tdda.referencetest import ReferenceTestCase, tag', '',
+             'def _log(x):', "    with open(os.environ['VERIF_PYLOG'], 'a') as f:", "        f.write(x + '\\n')", '']
+    for c in structure:
+        if c['ctag']:
+            lines.append('@tag')
+        parent = c['parent'] if c.get('parent') else ('unittest.TestCase' if c.get('plain') else 'ReferenceTestCase')
+        lines.append('class %s(%s):' % (c['cls'], parent))
+        if not c['tests']:
+            lines.append('    pass')
+        for t in c['tests']:
+            if t['mtag']:
+                lines.append('    @tag')
+            lines.append('    def %s(self):' % t['name'])
+            lines.append("        _log(type(self).__name__ + ' %s')" % t['name'])
+        lines.append('')
+    if hook:
+        lines += ['@tag', 'class ScenarioTest(ReferenceTestCase):', '    def __init__(self, scenario="x"):', "        super().__init__('check')",
+                  '        self.scenario = scenario', '    def check(self):', "        _log('ScenarioTest check')", '',
+                  'def load_tests(loader, tests, pattern):', "    tests.addTest(ScenarioTest('x'))", '    return tests', '']
+    lines += ["if __name__ == '__main__':", '    ReferenceTestCase.main()']
+    with open(path, 'w') as f:
+        f.write('\n'.join(lines) + '\n')
+
+
+def run_tdda_script(wd, structure, argv_strs, hook=False, timeout=120):
+    """python script.py <argv>: returns dict(executed, listed, error)."""
+    import subprocess
+    from . import common
+    os.makedirs(wd, exist_ok=True)
+    script = os.path.join(wd, 'run_me.py')
+    write_tdda_script(script, structure, hook)
+    log = os.path.join(wd, 'executed.log')
+    if os.path.exists(log):
+        os.remove(log)
+    env = common.child_env({'VERIF_PYLOG': log})
+    p = subprocess.run([common.PY, '-W', 'ignore', script] + list(argv_strs[1:]), cwd=wd, env=env, stdout=subprocess.PIPE,
+                       stderr=subprocess.PIPE, text=True, timeout=timeout)
+    executed = []
+    if os.path.exists(log):
+        executed = [tuple(ln.split(' ')) for ln in open(log).read().split('\n') if ln]
+    listed = [ln.strip()[len('__main__.'):] for ln in p.stdout.splitlines() if ln.strip().startswith('__main__.')]
+    err = None
+    if p.returncode not in (0, 5):          # 5: unittest's status for "no tests ran"
+        err = 'exit %d: %s' % (p.returncode, (p.stderr or p.stdout)[-300:])
+    return {'executed': executed, 'listed': listed, 'error': err}
